@@ -80,11 +80,11 @@ def parse_dump(text):
             keys = ["Declaration", "Signature", "ArgList", "ArgTypeList", "ArgTypeListEllipsis", "ArgCallList", "ArgCallListNoEllipsis",
                     "ReturnArgTypeList", "ReturnArgNameList", "ReturnArgList", "Call"]
             cur["methods"][-1]["strings"] = dict(zip(keys, strs))
-        elif kind == "param":
-            cur["methods"][-1]["params"].append({"name": strs[0], "type": strs[1], "ellipsis": strs[2], "under": strs[3], "arg": strs[4],
-                                                 "call": strs[5], "variadic": flags.get("variadic", False)})
-        elif kind == "result":
-            cur["methods"][-1]["results"].append({"name": strs[0], "type": strs[1]})
+        elif kind in ("param", "result"):
+            cur["methods"][-1]["params" if kind == "param" else "results"].append(
+                {"name": strs[0], "type": strs[1], "ellipsis": strs[2], "under": strs[3], "arg": strs[4], "call": strs[5], "callplain": strs[6],
+                 "varname": strs[7], "vartype": strs[8], "variadic": flags.get("variadic"), "nillable": flags.get("nillable"),
+                 "isslice": flags.get("isslice")})
         elif kind == "end":
             cur["ended"] = True
     return d
@@ -124,6 +124,25 @@ def passert_name(cs):
     return "zz_passert_ext_test.go" if cs.cfg["place"] == "ext_test" else "zz_passert.go"
 
 
+def vars_bad(ev):
+    """(only to LABEL a rejection TLC reported) which Param accessor of the event disagrees with the exported expectation?
+    -> (accessor, the variable is not variadic but its type string contains "...") or None"""
+    for vs, es in ((ev["params"], ev["exp_params"]), (ev["results"], ev["exp_results"])):
+        if len(vs) != len(es):
+            return ("count", False)
+        for v, e in zip(vs, es):
+            dots = (not e["variadic"]) and "..." in v["type"]
+            if v["variadic"] != e["variadic"]:
+                return ("variadic", dots)
+            if e["nillable"] != "any" and v["nillable"] != (e["nillable"] == "true"):
+                return ("nillable", dots)
+            if not e["variadic"]:
+                for acc, want in (("ellipsis", v["type"]), ("under", v["type"]), ("arg", v["name"] + " " + v["type"]), ("call", v["name"])):
+                    if v[acc] != want:
+                        return (acc, dots)
+    return None
+
+
 def section_of(world, relfile, line):
     try:
         ln = (world / relfile).read_text(errors="replace").splitlines()[int(line) - 1]
@@ -150,7 +169,7 @@ def run(ctx):
     for c in sp.cfgs:
         cfg = c["cfg"]
         if (cfg["tmpl"] == "testify" and cfg["fmt"] == "noop" and cfg["gomod"] == "plain" and not cfg["boilerplate"] and not cfg["buildtags"]
-                and cfg["unroll"] == "unset" and cfg["place"] in ("samepkg", "subpkg", "ext_test")):
+                and cfg["unroll"] == "unset" and cfg["ovr"] == "none" and cfg["place"] in ("samepkg", "subpkg", "ext_test")):
             base[cfg["place"]] = c
     if set(base) != {"samepkg", "subpkg", "ext_test"}:
         raise MachineryError("configuration export lacks the probe placements")
@@ -249,7 +268,14 @@ def run(ctx):
                     if a.get("ok"):
                         used |= set(a["idents"]) | set(a["quals"])
                 nms = [pr["name"] for pr in m["params"] + m["results"]]
+                def proj(v):
+                    # Var.Name / Var.TypeString / CallName false must agree with Name / TypeString
+                    ok = v["varname"] == v["name"] and v["vartype"] == v["type"] and v["callplain"] == v["name"]
+                    return {"name": v["name"], "type": v["type"] if ok else "<Var accessors disagree>", "ellipsis": v["ellipsis"], "under": v["under"],
+                            "arg": v["arg"], "call": v["call"], "variadic": bool(v["variadic"]), "nillable": bool(v["nillable"])}
                 events.append({"ev": "method", "case": cs.cid, "name": m["name"], "rep": rep, "exp": expd, "names": nms,
+                               "params": [proj(v) for v in m["params"]], "results": [proj(v) for v in m["results"]],
+                               "exp_params": e["params"] if e else [], "exp_results": e["results"] if e else [],
                                "valid": [bool(ana["names"].get(n_)) for n_ in nms], "used": sorted(used)})
             if x["ended"]:
                 events.append({"ev": "end", "case": cs.cid})
@@ -263,6 +289,7 @@ def run(ctx):
         for tag, fn in (("twice", lambda ev: ev[:mi + 1] + [ev[mi]] + ev[mi + 1:]),
                         ("dropped", lambda ev: ev[:mi] + ev[mi + 1:]),
                         ("flag", lambda ev: ev[:mi] + [dict(ev[mi], rep=dict(ev[mi]["rep"], variadic=not ev[mi]["rep"]["variadic"]))] + ev[mi + 1:]),
+                        ("result-variadic", lambda ev: ev[:mi] + [dict(ev[mi], results=[dict(r_, variadic=True) for r_ in ev[mi]["results"]] or [{"name": "x", "type": "int", "ellipsis": "int", "under": "int", "arg": "x int", "call": "x", "variadic": True, "nillable": False}])] + ev[mi + 1:]),
                         ("dupname", lambda ev: ev[:mi] + [dict(ev[mi], names=ev[mi]["names"] + ev[mi]["names"][:1], valid=ev[mi]["valid"] + [True])] + ev[mi + 1:])):
             cid = "selftest-" + tag
             corrupt.append(cid)
@@ -311,13 +338,16 @@ def run(ctx):
             why = "?"
             if ev["ev"] == "method":
                 nm = ev["names"]
-                why = ("booleans" if ev["rep"] != ev["exp"] else "names-invalid" if not all(ev["valid"]) else
+                why = ("booleans" if ev["rep"] != ev["exp"] else "param-accessors" if vars_bad(ev) else "names-invalid" if not all(ev["valid"]) else
                        "names-duplicate" if len(set(nm)) != len(nm) else "names-capture" if set(nm) & set(ev["used"]) else "method-unexpected-or-twice")
             elif ev["ev"] == "end":
                 why = "method-missing"
             elif ev["ev"] == "begin":
                 why = "tparams"
-            ctx.violation(dict(sig, kind="contract-rejects-dump", why=why), dict(detail, rejected_event=ev, spec="spec/DataModelTrace.tla"))
+            extra = {}
+            if why == "param-accessors":
+                extra = {"accessor": vars_bad(ev)[0], "nonvariadic_type_has_ellipsis": vars_bad(ev)[1]}
+            ctx.violation(dict(sig, kind="contract-rejects-dump", why=why, **extra), dict(detail, rejected_event=ev, spec="spec/DataModelTrace.tla"))
     if not_eval and not ctx.violations:
         raise MachineryError("%d cases were not evaluated and no violation explains it" % len(not_eval))
     if n_eval < 100 and not getattr(ctx, "replay", None):
